@@ -54,10 +54,29 @@ def build_harness():
     lock = os.path.join(HARNESS, "Cargo.lock")
     if not os.path.exists(lock):
         shutil.copy("/repo/Cargo.lock", lock)
+    # Cargo decides by file modification times whether the path dependency on /repo has to be
+    # rebuilt; a patch that is applied and reverted again (git apply / git checkout) was observed to
+    # leave a stale library behind.  The state of /repo's working tree is therefore fingerprinted
+    # and the /repo crates are cleaned from the harness' target directory whenever it changed.
+    try:
+        head = subprocess.run(["git", "-C", "/repo", "rev-parse", "HEAD"], stdout=subprocess.PIPE, text=True).stdout
+        diff = subprocess.run(["git", "-C", "/repo", "diff", "HEAD"], stdout=subprocess.PIPE, text=True,
+                              errors="replace").stdout
+        state = hashlib.sha1((head + diff).encode()).hexdigest()
+    except Exception:
+        state = str(time.time())
+    marker = os.path.join(HARNESS, "target", ".repo_state")
+    old = open(marker).read() if os.path.exists(marker) else ""
+    if old != state:
+        sh(["cargo", "clean", "--offline", "-p", "pumpkin-solver", "-p", "drcp-format"], cwd=HARNESS,
+           timeout=300, check=False)
     rc, out, dt = sh(["cargo", "build", "--offline", "--quiet"], cwd=HARNESS, timeout=1800, check=False)
     if rc != 0:
         # a tree that does not compile is a tool error, not a verdict
         raise ToolError("harness build failed:\n" + out[-4000:])
+    os.makedirs(os.path.dirname(marker), exist_ok=True)
+    with open(marker, "w") as f:
+        f.write(state)
     _built = True
 
 
@@ -136,13 +155,29 @@ def coverage_counts(out):
 
 
 # ------------------------------------------------------------------ traces of the real solver
-def record(fams, seed, tier, count, outdir, name="t"):
+def record(fams, seed, tier, count, outdir, name="t", start=0, stride=1):
     build_harness()
     trace = os.path.join(outdir, name + ".ndjson")
     scn = os.path.join(outdir, name + ".scn.ndjson")
     sh([PVH, "trace", "--fams", ",".join(fams), "--seed", str(seed), "--tier", tier,
-        "--count", str(count), "--out", trace, "--scn", scn], timeout=1800)
+        "--count", str(count), "--start", str(start), "--stride", str(stride),
+        "--out", trace, "--scn", scn], timeout=3000)
     return trace, scn
+
+
+EXH_CLAUSE_TOTAL = 14 * 16 * 16 * 2
+
+
+def exh_clause_part(res, tier, seed, adopt):
+    """Exhaustive small scope (2 variables, one binary clause, every value selector): thorough
+    visits the whole space, quick a seed-rotated seventh of it."""
+    if tier == "thorough":
+        rec = lambda d: record(["exh_clause"], seed, tier, EXH_CLAUSE_TOTAL, d)
+    else:
+        stride = 5   # coprime with 14 and 16: every selector and every predicate pair class is hit
+        rec = lambda d: record(["exh_clause"], seed, tier, EXH_CLAUSE_TOTAL // stride, d,
+                               start=seed % stride, stride=stride)
+    tv_part(res, [], 0, seed, tier, "exh_clause", adopt=adopt, recorder=rec)
 
 
 def run_scenarios(scn_file, outdir, name="r"):
@@ -446,26 +481,43 @@ BASE_ASSUME = [
 ]
 
 
+# foreign monitors that witness a violation of C01 / C02 / C03 when they fire in a family whose
+# purpose is that property
+C01_ADOPT = {"C03.IsSolution": "C01.SolutionHolds", "C04.CallbackIsSolution": "C01.SolutionHolds",
+             "C04.OptimalIsSolution": "C01.SolutionHolds", "C05.SatIsSolution": "C01.SolutionHolds",
+             "C18.AllFixed": "C01.Total", "C11.BestIsSolution": "C01.SolutionHolds"}
+
+
 def check_C01(res, tier, seed):
-    tv_part(res, ["solve"], n(tier, 60, 600), seed, tier, "solve")
-    tv_part(res, ["iterate", "optimise", "assume"], n(tier, 20, 200), seed, tier, "multi")
+    tv_part(res, ["solve"], n(tier, 400, 4000), seed, tier, "solve", adopt=C01_ADOPT)
+    tv_part(res, ["clauses"], n(tier, 300, 3000), seed, tier, "clauses", adopt=C01_ADOPT)
+    exh_clause_part(res, tier, seed, C01_ADOPT)
+    tv_part(res, ["iterate", "optimise", "assume"], n(tier, 100, 1000), seed, tier, "multi", adopt=C01_ADOPT)
+
+
+C02_ADOPT = {"C03.Complete": "C02.SolutionLost", "C04.UnsatRight": "C02.UnsatRight",
+             "C05.PlainUnsatRight": "C02.UnsatRight", "C03.EndKind": "C02.UnsatRight",
+             "C10.NoHang": "C02.NoTermination", "C04.OptimalIsBest": "C02.SolutionLost"}
 
 
 def check_C02(res, tier, seed):
-    tv_part(res, ["solve"], n(tier, 60, 600), seed + 1000, tier, "solve")
-    tv_part(res, ["history"], n(tier, 30, 300), seed, tier, "history")
+    tv_part(res, ["solve"], n(tier, 400, 4000), seed + 1000, tier, "solve", adopt=C02_ADOPT)
+    tv_part(res, ["clauses", "configs"], n(tier, 200, 2000), seed + 1000, tier, "search", adopt=C02_ADOPT,
+            min_events={"Learned": 50})
+    tv_part(res, ["history", "iterate"], n(tier, 100, 1000), seed, tier, "history", adopt=C02_ADOPT)
 
 
 def check_C03(res, tier, seed):
-    tv_part(res, ["iterate"], n(tier, 50, 500), seed, tier, "iterate", min_events={"IterSolution": 50})
+    tv_part(res, ["iterate"], n(tier, 300, 3000), seed, tier, "iterate", min_events={"IterSolution": 50})
+    tv_part(res, ["clauses", "reif", "cumulative"], n(tier, 150, 1500), seed + 3, tier, "kinds")
 
 
 def check_C04(res, tier, seed):
-    tv_part(res, ["optimise"], n(tier, 60, 600), seed, tier, "optimise", min_events={"Callback": 30})
+    tv_part(res, ["optimise"], n(tier, 400, 4000), seed, tier, "optimise", min_events={"Callback": 30})
 
 
 def check_C05(res, tier, seed):
-    tv_part(res, ["assume"], n(tier, 60, 600), seed, tier, "assume")
+    tv_part(res, ["assume"], n(tier, 500, 5000), seed, tier, "assume")
 
 
 # In the dedicated families a wrong solution set IS the violation of the family's property: the
@@ -606,21 +658,22 @@ def check_C19(res, tier, seed):
 
 
 def check_C10(res, tier, seed):
-    tv_part(res, ["history"], n(tier, 60, 600), seed, tier, "history")
+    tv_part(res, ["history"], n(tier, 500, 5000), seed, tier, "history")
 
 
 def check_C12(res, tier, seed):
-    tv_part(res, ["solve", "history"], n(tier, 40, 400), seed + 7, tier, "bounds", min_events={"Bounds": 200})
+    tv_part(res, ["solve", "history"], n(tier, 300, 3000), seed + 7, tier, "bounds", min_events={"Bounds": 200})
 
 
 def check_C17(res, tier, seed):
-    tv_part(res, ["solve"], n(tier, 80, 800), seed + 17, tier, "solve", min_events={"Propagated": 50})
-    tv_part(res, ["cumulative", "reif"], n(tier, 60, 600), seed + 17, tier, "kinds")
-    tv_part(res, ["assume", "history", "optimise"], n(tier, 30, 300), seed + 17, tier, "multi")
+    tv_part(res, ["solve"], n(tier, 400, 4000), seed + 17, tier, "solve", min_events={"Propagated": 50})
+    tv_part(res, ["cumulative", "reif", "clauses"], n(tier, 150, 1500), seed + 17, tier, "kinds")
+    tv_part(res, ["assume", "history", "optimise", "configs"], n(tier, 60, 600), seed + 17, tier, "multi")
 
 
 def check_C18(res, tier, seed):
-    tv_part(res, ["solve"], n(tier, 80, 800), seed + 18, tier, "solve", min_events={"Decide": 50})
+    tv_part(res, ["solve"], n(tier, 500, 5000), seed + 18, tier, "solve", min_events={"Decide": 50})
+    tv_part(res, ["clauses", "configs"], n(tier, 150, 1500), seed + 18, tier, "search")
 
 
 CHECKS = {
